@@ -146,7 +146,7 @@ func scenariosC16(tier string) []Scen {
 	}
 	// short-lived connections (reset, idleclose) let a handler's exit overlap the accept loop's next
 	// iteration within a small deviation bound
-	connSets := [][]string{nil, {"callhalf"}, {"two"}, {"herr"}, {"two", "callhalf"}, {"reset", "reset"}, {"idleclose", "callhalf"}, {"reset", "idleclose", "reset"}, {"info"}, {"desc"}, {"info", "desc"}, {"desc", "desc"}}
+	connSets := [][]string{nil, {"callhalf"}, {"two"}, {"herr"}, {"two", "callhalf"}, {"reset", "reset"}, {"idleclose", "callhalf"}, {"reset", "idleclose", "reset"}, {"info"}, {"desc"}, {"info", "desc"}, {"desc", "desc"}, {"info", "info"}}
 	var out []Scen
 	for _, os := range opSets {
 		for _, cs := range connSets {
